@@ -147,7 +147,7 @@ def writer_parallel_lists(ctx):
     """The three parallel list literals of SMMap.write as sequences of
     (slot, attribute | symbol-constant name)."""
     M = ctx.M
-    fn = M.fn(SMMAP + ".write")
+    fn = M.nfn(SMMAP + ".write", subst="alias")
     target = None
     for n in walk_no_nested(fn.node):
         if isinstance(n, ast.Assign) and isinstance(n.value, ast.List) and len(n.value.elts) == 3:
@@ -171,9 +171,13 @@ def writer_parallel_lists(ctx):
                 seq.append((C.self_attr(v.value), v.attr, x))
             elif isinstance(v, ast.BinOp) and isinstance(v.op, ast.Mult):
                 lstn, ln = (v.left, v.right) if isinstance(v.left, ast.List) else (v.right, v.left)
-                if isinstance(lstn, ast.List) and len(lstn.elts) == 1 and isinstance(lstn.elts[0], ast.Attribute) and \
-                        isinstance(ln, ast.Call) and unparse(ln.func) == "len" and C.self_attr(ln.args[0]):
-                    seq.append((C.self_attr(ln.args[0]), lstn.elts[0].attr, x))
+                # the symbol repeated once per row of a list: len(self.<list>) or len(self.<list>.<a column of it>)
+                lenarg = ln.args[0] if isinstance(ln, ast.Call) and unparse(ln.func) == "len" and ln.args else None
+                slot_ = C.self_attr(lenarg) if lenarg is not None else None
+                if slot_ is None and isinstance(lenarg, ast.Attribute) and C.self_attr(lenarg.value):
+                    slot_ = C.self_attr(lenarg.value)
+                if isinstance(lstn, ast.List) and len(lstn.elts) == 1 and isinstance(lstn.elts[0], ast.Attribute) and slot_:
+                    seq.append((slot_, lstn.elts[0].attr, x))
                 else:
                     raise AnalysisError(f"SMMap.write: symbol element not recognised: {unparse(v)[:60]}")
             else:
